@@ -467,6 +467,26 @@ theorem exec_good (σ : State S) (g : Good σ) (c : Cmd S) : ResGood (exec σ c)
     rcases hx with rfl | rfl
     · exact m2.valid hv1
     · exact hv2
+  | lflag l which tr =>
+    simp only [exec]
+    split
+    · rename_i lay hl
+      split
+      · rename_i a b hab
+        obtain ⟨k, hk⟩ := lookup_mem _ _ _ hl
+        have hva : a.Valid σ := rv.layers _ hk a (by rw [hab]; simp)
+        have hvb : b.Valid σ := rv.layers _ hk b (by rw [hab]; simp)
+        refine resGood_pure _ _ (good_insert_layer g l _ ?_)
+        intro x hx
+        rcases setLayerParams_sub lay _ _ x hx with rfl | rfl
+        · split
+          · exact hva
+          · exact hva
+        · split
+          · exact hvb
+          · exact hvb
+      · exact resGood_throw _
+    · exact resGood_throw _
   | lfwd w l a =>
     simp only [exec]
     split
